@@ -958,6 +958,46 @@ pub fn c02_prune_safety(rep: &Report, tier: Tier, scratch: &Scratch) {
     let n = space::for_each_expr(&opts, &|e: &Expr| {
         let mut c = Counters::new();
         let Some(g) = model::build_ok(&e.text) else { return };
+        // anchor law (no walk: a rooted glob whose first component is variant would traverse the
+        // machine's real root): the traversal root is the given directory joined, as paths join,
+        // with the invariant prefix that `partition` reports - a rooted prefix replaces the
+        // directory - and the pivot counts the prefix components that the join appended
+        if let Ok((root, pivot)) = guard(|| g.verif_walk_anchor("/waxmc-base/x")) {
+            bump(&mut c, "anchors_checked", 1);
+            let prefix = g.clone().partition().0;
+            let base = Path::new("/waxmc-base/x");
+            let expected = base.join(&prefix);
+            let mut bad = vec![];
+            if root != expected {
+                bad.push(format!("traversal root {:?}, expected {:?} (given directory joined with the invariant prefix {:?})", root, expected, prefix));
+            }
+            if g.has_root().is_always() && (!root.is_absolute() || root.starts_with(base)) {
+                bad.push(format!("the glob is rooted but the traversal root {:?} is beneath the given directory", root));
+            }
+            if !prefix.is_absolute() {
+                let appended = expected.components().count().saturating_sub(base.components().count());
+                if pivot != appended {
+                    bad.push(format!("pivot {} but the join appended {} component(s)", pivot, appended));
+                }
+            }
+            if !bad.is_empty() {
+                // recorded finding: a glob rooted through a branch token has no invariant prefix
+                // (or only `/` with the whole expression left over), so the walk starts in the
+                // given directory; identified by the first token being a rooted branch and the
+                // traversal root being exactly the join of directory and reported prefix
+                let through_branch = crate::props_partition::first_token_is_rooted_repetition(&e.ast)
+                    && g.has_root().is_always()
+                    && prefix.as_os_str().is_empty()
+                    && root == expected
+                    && bad.len() == 1;
+                rep.alarm(Alarm {
+                    class: if through_branch { Some("walk-rooted-through-branch".to_string()) } else { None },
+                    key: format!("anchor {}", e.text),
+                    msg: format!("`{}` walked in /waxmc-base/x: {}", e.text, bad.join("; ")),
+                    case: json!({"kind": "anchor", "expression": e.text}),
+                });
+            }
+        }
         if !g.has_root().is_never() {
             // rooted globs: the recorded misalignment is in the walker, not in the programs
             bump(&mut c, "prune_rooted_skipped", 1);
@@ -1017,6 +1057,16 @@ pub fn c02_prune_safety(rep: &Report, tier: Tier, scratch: &Scratch) {
         rep.merge(&c);
     });
     rep.add("prune_programs_enumerated", n);
+}
+
+pub fn replay_anchor(case: &Value) -> bool {
+    let e = case["expression"].as_str().unwrap_or("");
+    let g = Glob::new(e).unwrap();
+    let (root, pivot) = g.verif_walk_anchor("/waxmc-base/x");
+    let prefix = g.clone().partition().0;
+    let expected = Path::new("/waxmc-base/x").join(&prefix);
+    println!("`{}`: invariant prefix {:?}; walked in /waxmc-base/x the traversal root is {:?} (pivot {}), expected {:?}", e, prefix, root, pivot, expected);
+    root != expected
 }
 
 pub fn replay_prune(case: &Value) -> bool {
